@@ -1,10 +1,281 @@
-//! C03 — not built yet.
-use crate::ev::Ctx;
-pub fn run(_ctx: &Ctx) -> i32 {
-    println!("INCONCLUSIVE property=C03 check not built yet");
-    2
+//! C03 — multi-document and multi-input output is the ordered concatenation.
+//!
+//! A sequence of N documents is distributed over 1-4 translate calls on ONE
+//! Translator (mixed source formats, slice and reader, explicit and detected,
+//! every separator style the source allows). The writer's byte log must equal
+//! the concatenation of the fresh single-document translations, and the
+//! independent reader of the target must recover exactly N documents.
+
+use serde_json::{json, Value};
+
+use crate::corpus::{join_stream, yaml_stream};
+use crate::ev::{self, Acc, Ctx, Finish, Violation};
+use crate::fmts::{self, Fmt, STREAMING};
+use crate::gen::{gen_doc, tomlify, Classes, GenOpts};
+use crate::known;
+use crate::model::{hex, preview, unhex, Val};
+use crate::mon::{MonWriter, Sched};
+use crate::read::read_stream;
+use crate::rng::Rng;
+use crate::run::{run_history, run_slice, Call, Mode, Verdict};
+use crate::spell::{spell, Feats};
+
+fn calls_json(calls: &[Call]) -> Value {
+    Value::Array(calls.iter().map(|c| json!({"input_hex": hex(&c.input), "input_preview": preview(&c.input, 160), "from": fmts::from_name(c.from), "mode": c.mode.describe()})).collect())
 }
-pub fn replay(_case: &serde_json::Value) -> i32 {
-    println!("replay not built yet");
-    2
+
+fn parse_calls(v: &Value) -> Option<Vec<Call>> {
+    let mut out = vec![];
+    for c in v.as_array()? {
+        out.push(Call { input: unhex(c["input_hex"].as_str()?)?, from: fmts::parse_from(c["from"].as_str()?)?, mode: Mode::parse(c["mode"].as_str()?)? });
+    }
+    Some(out)
+}
+
+/// A document whose spelling in `f` has exactly `len` bytes (a padded string),
+/// used to make documents end on or straddle buffer boundaries.
+fn padded_doc(f: Fmt, len: usize) -> Val {
+    let overhead = match f {
+        Fmt::Json => 2,    // quotes
+        Fmt::Msgpack => 3, // str16 header
+        _ => 3,            // "x: " style handled by caller; approximate
+    };
+    Val::Str("a".repeat(len.saturating_sub(overhead).max(32)))
+}
+
+pub struct History {
+    pub calls: Vec<Call>,
+    /// (document, source format of the call it belongs to)
+    pub docs: Vec<(Val, Fmt)>,
+    pub feats: Feats,
+}
+
+pub fn gen_history(seed: u64, idx: usize, to: Fmt, cl: &mut Classes) -> History {
+    let mut rng = Rng::derive(seed, 0xc03, idx as u64);
+    let n = *rng.pick(&[0usize, 1, 1, 2, 2, 3, 3, 4, 5, 5, 17, 300]);
+    let small = GenOpts { max_depth: 3, max_width: 4, ..GenOpts::common() };
+    let mut feats = Feats::default();
+    let n_calls = if n == 0 { rng.range(1, 2) } else { rng.range(1, 4.min(n.max(1))) };
+    // cut points
+    let mut cuts: Vec<usize> = (0..n_calls - 1).map(|_| rng.range(0, n)).collect();
+    cuts.sort();
+    cuts.insert(0, 0);
+    cuts.push(n);
+    let mut calls = vec![];
+    let mut docs: Vec<(Val, Fmt)> = vec![];
+    for w in cuts.windows(2) {
+        let k = w[1] - w[0];
+        let mut src = *rng.pick(&STREAMING);
+        let mut call_docs: Vec<Val> = vec![];
+        if k == 1 && rng.chance(1, 5) {
+            // a TOML input holds exactly one document
+            let d = gen_doc(&mut rng, &GenOpts::toml(), cl);
+            src = Fmt::Toml;
+            call_docs.push(d);
+        } else {
+            for j in 0..k {
+                let d = if n >= 17 {
+                    // many small documents, scalars first
+                    if j == 0 { Val::Int(j as i128) } else { gen_doc(&mut rng, &GenOpts { max_depth: 1, max_width: 2, ..GenOpts::common() }, cl) }
+                } else if rng.chance(1, 6) {
+                    feats.hit("boundary_padded_document");
+                    let target = *rng.pick(&[8192usize, 16384]) + rng.range(0, 4) - 2;
+                    padded_doc(src, target)
+                } else if rng.chance(1, 4) {
+                    // scalar documents (a scalar first in the stream is an untested case)
+                    crate::gen::gen_scalar(&mut rng, &small, cl)
+                } else {
+                    gen_doc(&mut rng, &small, cl)
+                };
+                call_docs.push(d);
+            }
+        }
+        let plain = rng.chance(1, 4);
+        let bytes = match src {
+            Fmt::Yaml => {
+                if call_docs.is_empty() {
+                    (*rng.pick(&[&b""[..], b"\n", b"# nothing here\n", b"\n# c\n\n"])).to_vec()
+                } else {
+                    yaml_stream(&call_docs, &mut rng, &mut feats, plain)
+                }
+            }
+            Fmt::Json => {
+                if call_docs.is_empty() {
+                    (*rng.pick(&[&b""[..], b" ", b"\n\n"])).to_vec()
+                } else {
+                    let sp: Vec<Vec<u8>> = call_docs.iter().map(|d| spell(src, d, &mut rng, &mut feats, plain)).collect();
+                    join_stream(src, &sp, &mut rng, &mut feats)
+                }
+            }
+            _ => {
+                let sp: Vec<Vec<u8>> = call_docs.iter().map(|d| spell(src, d, &mut rng, &mut feats, plain)).collect();
+                join_stream(src, &sp, &mut rng, &mut feats)
+            }
+        };
+        let mode = match rng.below(5) {
+            0 | 1 => Mode::Slice,
+            2 => Mode::Reader(Sched::One),
+            3 => Mode::Reader(Sched::Fixed(*rng.pick(&[2usize, 7, 4096, 8191, 8192, 8193]))),
+            _ => Mode::Reader(Sched::Random(rng.next(), 64)),
+        };
+        // detection only where it names the call's format
+        let from = if rng.chance(1, 3) && xt::verif::detect_slice(&bytes).ok().flatten().map(Fmt::from_xt) == Some(src) { None } else { Some(src) };
+        for d in call_docs {
+            docs.push((d, src));
+        }
+        calls.push(Call { input: bytes, from, mode });
+    }
+    let _ = to;
+    History { calls, docs, feats }
+}
+
+fn is_documentless_yaml_slice(c: &Call) -> bool {
+    let src_yaml = c.from == Some(Fmt::Yaml) || (c.from.is_none() && false);
+    src_yaml && matches!(c.mode, Mode::Slice) && crate::read::yaml::read_docs(&c.input).map(|d| d.is_empty()).unwrap_or(false)
+}
+
+pub fn judge(h_calls: &[Call], docs: &[(Val, Fmt)], to: Fmt, acc: &mut Acc) {
+    acc.evals += 1;
+    let (verdicts, wlog) = run_history(h_calls, to, MonWriter::new(), true);
+    let case = || json!({"to": to.name(), "calls": calls_json(h_calls), "documents": docs.len()});
+    // expected: fresh single-document translations
+    let mut expected: Vec<u8> = vec![];
+    let mut singles: Vec<Vec<u8>> = vec![];
+    for (d, src) in docs {
+        let mut rng = Rng::new(1);
+        let mut f = Feats::default();
+        let bytes = spell(*src, d, &mut rng, &mut f, true);
+        let o = run_slice(&bytes, Some(*src), to);
+        if !o.verdict.is_ok() {
+            // a document xt cannot translate alone cannot be part of the expected concatenation: harness-side problem
+            acc.inconclusive += 1;
+            return;
+        }
+        expected.extend_from_slice(&o.out);
+        singles.push(o.out);
+    }
+    if let Some(bad) = verdicts.iter().position(|v| !v.is_ok()) {
+        if matches!(verdicts[bad], Verdict::Err(_)) && is_documentless_yaml_slice(&h_calls[bad]) && known::listed("C03", "C02-yaml-documentless-stream") {
+            acc.known("C02-yaml-documentless-stream", || format!("call {} input [{}]", bad, preview(&h_calls[bad].input, 40)));
+            return;
+        }
+        acc.violation(Violation { sig: format!("to={} call failed: {}", to.name(), ev::truncate(&crate::c02_mask(verdicts[bad].text()), 80)), case: case(), observed: format!("call {} of {}: {}", bad, h_calls.len(), verdicts[bad].show()), expected: "every call succeeds".into() });
+        return;
+    }
+    if wlog.bytes != expected {
+        let at = wlog.bytes.iter().zip(expected.iter()).position(|(a, b)| a != b).unwrap_or(wlog.bytes.len().min(expected.len()));
+        // which document does the first difference fall into?
+        let mut off = 0;
+        let mut doc_no = singles.len();
+        for (i, s) in singles.iter().enumerate() {
+            if at < off + s.len() {
+                doc_no = i;
+                break;
+            }
+            off += s.len();
+        }
+        acc.violation(Violation {
+            sig: format!("to={} output differs from per-document concatenation ({})", to.name(), if wlog.bytes.len() < expected.len() { "shorter" } else if wlog.bytes.len() > expected.len() { "longer" } else { "same length" }),
+            case: case(),
+            observed: format!("{} bytes written, first difference at byte {} (document {} of {}): got [{}] expected [{}]", wlog.bytes.len(), at, doc_no, docs.len(), preview(&wlog.bytes[at.saturating_sub(20)..], 80), preview(&expected[at.saturating_sub(20).min(expected.len())..], 80)),
+            expected: format!("{} bytes: the concatenation of {} single-document translations", expected.len(), docs.len()),
+        });
+        return;
+    }
+    // framing, judged by the independent reader of the target
+    match read_stream(to, &wlog.bytes) {
+        Err(e) => acc.violation(Violation { sig: format!("to={} framing: output unreadable", to.name()), case: case(), observed: e, expected: format!("{} readable documents", docs.len()) }),
+        Ok(got) => {
+            if got.len() != docs.len() {
+                acc.violation(Violation { sig: format!("to={} framing: document count", to.name()), case: case(), observed: format!("{} documents recovered", got.len()), expected: format!("{} documents", docs.len()) });
+            } else {
+                acc.count("framing_checked");
+                acc.add("documents_framed", got.len() as u64);
+            }
+        }
+    }
+}
+
+pub fn run(ctx: &Ctx) -> i32 {
+    let n = ctx.size(40000, 1500000);
+    let seed = ctx.seed;
+    let acc = crate::par::run(n, 8, |i, acc| {
+        let to = STREAMING[i % 3];
+        let mut cl = Classes::default();
+        let h = gen_history(seed, i, to, &mut cl);
+        cl.add_to(acc);
+        acc.count(&format!("n_docs_{}", match h.docs.len() { 0 => "0".to_string(), 1 => "1".into(), 2..=5 => "2-5".into(), 6..=17 => "17".into(), _ => "300".into() }));
+        acc.count(&format!("n_calls_{}", h.calls.len()));
+        acc.count(&format!("target_{}", to.name()));
+        for c in &h.calls {
+            acc.count(&format!("call_from_{}", fmts::from_name(c.from)));
+            acc.count(&format!("call_mode_{}", c.mode.describe().split(':').take(2).collect::<Vec<_>>().join(":")));
+        }
+        for (k, v) in &h.feats.0 {
+            acc.add(&format!("spelling_{k}"), *v as u64);
+        }
+        if h.docs.len() >= 2 {
+            acc.distinct(&(h.calls.iter().map(|c| c.input.clone()).collect::<Vec<_>>(), to.name()));
+        }
+        acc.sample_every(499, || json!({"to": to.name(), "documents": h.docs.len(), "calls": h.calls.iter().map(|c| json!({"from": fmts::from_name(c.from), "mode": c.mode.describe(), "input_preview": preview(&c.input, 100)})).collect::<Vec<_>>()}));
+        judge(&h.calls, &h.docs, to, acc);
+    });
+    let rule = format!("{} histories: N in {{0,1,2,3,4,5,17,300}} documents (scalars first, empty and large collections, strings padded so documents end at 8192/16384 +-2) distributed over 1-4 translate calls on one Translator, each call in its own source format (JSON/MessagePack/YAML, or TOML for one document), slice or reader under a schedule, explicit or detected, with every separator style the source allows (JSON none/blank/newlines; YAML '---', '--- value', '...'+'---', comments, blank lines, %YAML directives), targets JSON/MessagePack/YAML in turn; distinct non-trivial = distinct (inputs, target) with >= 2 documents", n);
+    ev::finish(
+        Finish {
+            ctx,
+            level: "exploration",
+            rule,
+            assumptions: vec!["the translation of a document alone is obtained from a conventional spelling of the same value in the same source format".into()],
+            extra: serde_json::Map::new(),
+            exhaustive: false,
+            min_distinct: 500,
+            must_reach: vec![("framing_checked".into(), 1000), ("n_docs_300".into(), 10), ("n_docs_0".into(), 10), ("n_calls_3".into(), 10)],
+        },
+        acc,
+    )
+}
+
+pub fn replay(v: &Value) -> i32 {
+    let c = &v["case"];
+    let (Some(calls), Some(to)) = (parse_calls(&c["calls"]), c["to"].as_str().and_then(Fmt::parse)) else {
+        println!("bad replay case");
+        return 2;
+    };
+    // recover the documents from the inputs with the independent readers
+    let mut docs: Vec<(Val, Fmt)> = vec![];
+    for call in &calls {
+        let src = call.from.or_else(|| xt::verif::detect_slice(&call.input).ok().flatten().map(Fmt::from_xt));
+        let Some(src) = src else {
+            println!("cannot determine the source format of a call");
+            return 2;
+        };
+        let ds = match src {
+            Fmt::Json => crate::read::json::read_many(&call.input).map(|v| v.into_iter().map(|x| x.0).collect::<Vec<_>>()),
+            Fmt::Msgpack => crate::read::msgpack::read_all(&call.input),
+            Fmt::Yaml => crate::read::yaml::read_docs(&call.input).map(|v| v.into_iter().map(|d| d.val).collect()),
+            Fmt::Toml => crate::read::toml::read(&call.input).map(|v| vec![v]),
+        };
+        match ds {
+            Ok(ds) => docs.extend(ds.into_iter().map(|d| (d, src))),
+            Err(e) => {
+                println!("cannot re-read a call's input: {e}");
+                return 2;
+            }
+        }
+    }
+    let (verdicts, wlog) = run_history(&calls, to, MonWriter::new(), true);
+    for (i, call) in calls.iter().enumerate() {
+        println!("call {i}: from={} mode={} input=[{}] -> {}", fmts::from_name(call.from), call.mode.describe(), preview(&call.input, 300), verdicts.get(i).map(|v| v.show()).unwrap_or_else(|| "(not run)".into()));
+    }
+    println!("output ({} bytes): [{}]", wlog.bytes.len(), preview(&wlog.bytes, 600));
+    let mut acc = Acc::default();
+    judge(&calls, &docs, to, &mut acc);
+    if acc.vio_count > 0 {
+        println!("VIOLATION property=C03 replay=<this file> (reproduced): {}", acc.violations[0].observed);
+        1
+    } else {
+        println!("not reproduced (or a listed known finding)");
+        0
+    }
 }
